@@ -84,13 +84,16 @@ class AdjointTape(Interpretation):
     def adjoint(self, sum_op, bin_op, root, targets=None, *, batch_vars=set()):
         zero = to_funsor(ops.UNITS[sum_op])
         one = to_funsor(ops.UNITS[bin_op])
-        adjoint_values = defaultdict(lambda: zero)
-        adjoint_values[root] = one
         # Contributions not yet propagated to the inputs. Tape entries that differ
         # only in the names of bound variables share a key after un-mangling, so
         # each entry must propagate only what arrived since the previous one.
         pending = defaultdict(lambda: zero)
         pending[root] = one
+        # The adjoint of a tape node is final when its entry is popped. (Its eager
+        # value may be the very same funsor as one of the leaves, e.g. a renaming
+        # back to the original names, so it cannot be read off a dict keyed by
+        # eager values at the end.)
+        adjoint_values = defaultdict(lambda: zero)
 
         reached_root = False
         while self.tape:
@@ -141,19 +144,20 @@ class AdjointTape(Interpretation):
 
                 self._eager_to_lazy[output] = lazy_output
 
-            in_adjs = adjoint_ops(fn, sum_op, bin_op, pending.pop(output, zero), *inputs)
+            out_adj = pending.pop(output, zero)
+            adjoint_values[lazy_output] = sum_op(adjoint_values[lazy_output], out_adj)
+            in_adjs = adjoint_ops(fn, sum_op, bin_op, out_adj, *inputs)
             for v, adjv in in_adjs:
                 # Marginalize out message variables that don't appear in recipients.
                 agg_vars = adjv.input_vars - v.input_vars - root.input_vars - batch_vars
                 assert "particle" not in {var.name for var in agg_vars}  # DEBUG FIXME
-                adjv = adjv.reduce(sum_op, agg_vars)
-                adjoint_values[v] = sum_op(adjoint_values[v], adjv)
-                pending[v] = sum_op(pending[v], adjv)
+                pending[v] = sum_op(pending[v], adjv.reduce(sum_op, agg_vars))
 
         result = defaultdict(lambda: zero)
-        for key, value in adjoint_values.items():
-            lazy_key = self._eager_to_lazy.get(key, key)
-            result[lazy_key] = value
+        result.update(adjoint_values)
+        # What was never popped belongs to the leaves (or to a root that is a leaf).
+        for key, value in pending.items():
+            result[key] = sum_op(result[key], value)
 
         if targets is None:
             return result
